@@ -1,13 +1,19 @@
 // Mock task set for C15: provides exactly the surface dispenso::for_each_n uses on its TaskSetT
 // template parameter -- pool(), numPoolThreads(), scheduleBulk(count, gen), wait() -- plus the
 // schedule() overloads of the real sets.  It plays scheduler at *task granularity*:
-//  * a scheduled closure is either run inline on the caller (what the real sets do under load) or
-//    stored (symbolic choice per task; ForceQueuingTag always stores);
+//  * a scheduled closure is either run inline on the caller (what the real sets do under load / on
+//    zero-thread pools) or stored (symbolic choice per task; ForceQueuingTag always stores);
 //  * stored closures are run in a symbolically chosen order, at symbolically chosen points: one may be
-//    picked up by a pool thread (only when the mock pool has >= 1 thread) at the start of every
+//    picked up by a pool thread (only when the mock pool has >= 1 thread) at the start of every later
 //    schedule() and -- VF_DEEP, through pickupInFunctor() called from the element functor -- between
-//    two element applications of the caller's own chunk; all remaining ones run inside wait().
-//  * like the real scheduleBulk, gen(i) is evaluated for increasing i before scheduleBulk returns.
+//    two element applications of another chunk; all remaining ones run inside wait() in a
+//    symbolically chosen order;
+//  * like the real scheduleBulk, gen(i) is evaluated once for every i in [0, count) before
+//    scheduleBulk returns.
+// Storage is *typed and indexed by task number* (the k-th closure handed to the set lives in
+// Slots<C>::obj[k], with a symbolic pending flag): every closure pointer, and therefore every chunk
+// boundary and loop trip count inside a closure, stays a constant for the symbolic executor; only
+// the decisions (inline/stored, who runs when) are symbolic.
 #pragma once
 #include <cstddef>
 #include <new>
@@ -16,28 +22,59 @@
 #include "vf.h"
 
 #ifndef VF_MAXTASKS
-#define VF_MAXTASKS 4
+#define VF_MAXTASKS 3
 #endif
 
 struct MockPool {
   int unused;
 };
 
+template <typename C>
+struct Slots {
+  static C* obj[VF_MAXTASKS];
+  static void run(int k) {
+    C* c = obj[k];  // (not reset: a guarded reset would turn the slot into a symbolic pointer)
+    (*c)();
+    // destroyed, storage deliberately not freed: a free under a symbolic guard (inline now / later in
+    // wait()) makes the liveness of every closure object symbolic for all later accesses
+    c->~C();
+  }
+};
+template <typename C>
+C* Slots<C>::obj[VF_MAXTASKS];
+
 struct MockTaskSet {
-  // stored closures (type erased): scalar arrays, so that a symbolically indexed access stays a typed
-  // array access in the lifted C
-  void (*qrun[VF_MAXTASKS])(void*);
-  void* qobj[VF_MAXTASKS];
-  int nq = 0;
+  bool pending[VF_MAXTASKS];
+  void (*runSlot)(int) = nullptr;  // Slots<C>::run of the (single) closure type scheduled on this set
   ssize_t nthreads = 0;
   MockPool pool_;
+  // scheduling decisions, all drawn up front (a fixed number of inputs per scenario keeps the
+  // runtime's input log indices constant)
+  bool chInline[VF_MAXTASKS];    // task k runs inline in schedule()
+  bool chPickup[VF_MAXTASKS];    // a pool thread picks up a stored task at the start of the k-th schedule()
+  uint8_t chWhich[VF_MAXTASKS];  // ... which one
+  uint8_t chOrder[VF_MAXTASKS];  // wait(): which pending task runs in round r
+  uint8_t chDeepAt;              // VF_DEEP: pick-up before the chDeepAt-th element application ...
+  uint8_t chDeepWhich;           // ... of this stored task
   // ghost
-  int scheduled = 0;   // closures handed to the set
-  int executed = 0;    // closures run to completion
-  int waits = 0;       // wait() calls
-  int depth = 0;       // nesting of task execution (spontaneous runs are taken at depth <= 1 only)
+  int scheduled = 0;  // closures handed to the set
+  int executed = 0;   // closures run to completion
+  int stored = 0;     // closures that were queued rather than run inline
+  int waits = 0;      // wait() calls
+  int depth = 0;      // nesting of task execution
+  int applications = 0;
 
-  explicit MockTaskSet(ssize_t n) : nthreads(n) {}
+  explicit MockTaskSet(ssize_t n) : nthreads(n) {
+    for (int i = 0; i < VF_MAXTASKS; ++i) {
+      pending[i] = false;
+      chInline[i] = vf_nondet_bool();
+      chPickup[i] = vf_nondet_bool();
+      chWhich[i] = vf_range_u8(0, VF_MAXTASKS - 1);
+      chOrder[i] = vf_range_u8(0, VF_MAXTASKS - 1);
+    }
+    chDeepAt = vf_nondet_u8();
+    chDeepWhich = vf_range_u8(0, VF_MAXTASKS - 1);
+  }
 
   MockPool& pool() {
     return pool_;
@@ -46,108 +83,96 @@ struct MockTaskSet {
     return nthreads;
   }
 
-  template <typename C>
-  static void trampoline(void* p) {
-    C* c = static_cast<C*>(p);
-    (*c)();
-    delete c;
-  }
-
-  template <typename F>
-  void store(F&& f) {
-    using C = typename std::decay<F>::type;
-    vf_check(nq < VF_MAXTASKS, "harness bound: more stored tasks than VF_MAXTASKS");
-    if (nq >= VF_MAXTASKS) {
-      return;
+  int numPending() const {
+    int c = 0;
+    for (int i = 0; i < VF_MAXTASKS; ++i) {
+      c += pending[i] ? 1 : 0;
     }
-    qrun[nq] = &trampoline<C>;
-    qobj[nq] = new C(std::forward<F>(f));
-    ++nq;
+    return c;
   }
 
-  void runOne() {
-    // symbolic choice of which stored closure runs next
-    uint32_t k = vf_range_u32(0, VF_MAXTASKS - 1);
-    vf_assume((int)k < nq);
-    void (*run)(void*) = qrun[k];
-    void* obj = qobj[k];
-    qrun[k] = qrun[nq - 1];
-    qobj[k] = qobj[nq - 1];
-    --nq;
+  void runTask(int i) {
+    pending[i] = false;
     ++depth;
-    run(obj);
+    runSlot(i);
     --depth;
     ++executed;
   }
 
-  // a pool thread may pick up one stored closure now (only pools with >= 1 thread have such a thread)
-  void pickup() {
-    if (nthreads <= 0 || depth > 0 || nq == 0) {
-      return;
-    }
-    if (vf_nondet_bool()) {
-      runOne();
+  // run stored closure k if it is pending (no-op otherwise)
+  void runPick(uint32_t k) {
+    for (int i = 0; i < VF_MAXTASKS; ++i) {
+      if ((uint32_t)i == k && pending[i]) {
+        runTask(i);
+      }
     }
   }
 
   // called by the harness' element functor (VF_DEEP): a pool thread may run one stored closure between
-  // two element applications of the caller's own chunk
+  // two element applications of a chunk that is executing (only pools with >= 1 thread)
   void pickupInFunctor() {
-    pickup();
-  }
-
-  template <typename F>
-  void schedule(F&& f) {
-    pickup();
-    ++scheduled;
-    if (vf_nondet_bool()) {
-      ++depth;
-      f();
-      --depth;
-      ++executed;
-    } else {
-      store(std::forward<F>(f));
+    int a = applications++;
+    if (nthreads > 0 && depth <= 1 && a == (int)chDeepAt) {
+      runPick(chDeepWhich);
     }
   }
 
   template <typename F>
-  void schedule(F&& f, dispenso::ForceQueuingTag) {
-    pickup();
+  void scheduleImpl(F&& f, bool mayInline) {
+    using C = typename std::decay<F>::type;
+    int k = scheduled;
+    vf_check(k < VF_MAXTASKS, "harness bound: more closures scheduled than VF_MAXTASKS");
+    if (k >= VF_MAXTASKS) {
+      return;
+    }
+    // a pool thread may pick up one stored closure now (only pools with >= 1 thread have such a thread)
+    if (nthreads > 0 && depth == 0 && k > 0 && chPickup[k]) {
+      runPick(chWhich[k]);
+    }
+    vf_check(runSlot == nullptr || runSlot == &Slots<C>::run, "harness bound: one closure type per task set");
+    runSlot = &Slots<C>::run;
     ++scheduled;
-    store(std::forward<F>(f));
+    Slots<C>::obj[k] = new C(std::forward<F>(f));
+    if (mayInline && chInline[k]) {
+      runTask(k);
+    } else {
+      pending[k] = true;
+      ++stored;
+    }
+  }
+
+  template <typename F>
+  void schedule(F&& f) {
+    scheduleImpl(std::forward<F>(f), true);
+  }
+
+  template <typename F>
+  void schedule(F&& f, dispenso::ForceQueuingTag) {
+    scheduleImpl(std::forward<F>(f), false);
   }
 
   template <typename Generator>
   void scheduleBulk(size_t count, Generator&& gen) {
-    vf_check(count <= VF_MAXTASKS, "harness bound: scheduleBulk count exceeds VF_MAXTASKS");
-    for (size_t i = 0; i < VF_MAXTASKS; ++i) {
-      if (i >= count) {
-        break;
-      }
+    for (size_t i = 0; i < count; ++i) {
       schedule(gen(i));
     }
   }
 
   template <typename Generator>
   void scheduleBulk(size_t count, Generator&& gen, dispenso::ForceQueuingTag fq) {
-    vf_check(count <= VF_MAXTASKS, "harness bound: scheduleBulk count exceeds VF_MAXTASKS");
-    for (size_t i = 0; i < VF_MAXTASKS; ++i) {
-      if (i >= count) {
-        break;
-      }
+    for (size_t i = 0; i < count; ++i) {
       schedule(gen(i), fq);
     }
   }
 
   bool wait() {
     ++waits;
-    for (int i = 0; i < VF_MAXTASKS; ++i) {
-      if (nq == 0) {
-        break;
-      }
-      runOne();
+    // drain: every round runs one of the still pending closures, symbolic choice
+    for (int r = 0; r < VF_MAXTASKS; ++r) {
+      uint32_t k = chOrder[r];
+      vf_assume(numPending() == 0 || pending[k]);
+      runPick(k);
     }
-    vf_check(nq == 0, "harness bound: wait() drained every stored task");
     return false;
   }
 };
